@@ -247,7 +247,7 @@ def v4_invariant(om, gname, c1, c2, terms):
     return a is not None and b is not None and all(x == y for x, y in zip(a, b))
 
 
-def check_nd(ctx, led, v, rule="C05.nd"):
+def check_nd(ctx, led, v, rule="C05.nd", only_sinks=None):
     """For every optional metric K: every sink output is the same for K absent and K = Not Defined
     (all other metrics arbitrary).  Chaining single-metric flips gives every subset."""
     om = get_model(ctx, v)
@@ -264,6 +264,8 @@ def check_nd(ctx, led, v, rule="C05.nd"):
             led.violation(rule, "%s metric %s" % (om.clsname, k), "cvss/", "optional metric %s has no %s value" % (k, nd))
             continue
         for name, (val, st, evs) in sorted(sinks.items()):
+            if only_sinks is not None and name not in only_sinks:
+                continue
             terms = flat_terms(val, st)
             dkey = ("sinkdeps", v, name)
             if dkey not in ctx.memo:
